@@ -27,9 +27,11 @@ OPERATORS = {"Add": ("+", "__add__", "a + b"), "Sub": ("-", "__sub__", "a - b"),
 ALSO = {"Geq": "__ge__", "Leq": "__le__", "Neq": "__ne__"}
 
 
-def api_family(rp, only=None):
+def api_family(rp, only=None, extra_names=()):
     """(role, Mamba source, Python caller, expected stdout)."""
-    progs = [
+    progs = [(f"operator-undocumented-key-{nm}", f"def {nm}(a: Int) -> Int => a + 1\nclass W\n    def {nm}(self, a: Int) -> Int => a + 2", f"print({nm}(2), W().{nm}(2))", "3 4")
+             for nm in extra_names if re.fullmatch(r"[A-Za-z_][A-Za-z0-9_]*", nm)]
+    progs += [
         ("positional-and-keyword", "def f(x: Int, y: Int := 3) -> Int => x - y", "print(f(10), f(10, 1), f(y=1, x=5))", "7 9 4"),
         ("vararg", "def f(vararg xs: Int) -> Int => 3", "print(f(1, 2, 3))", "3"),
         ("method-parameters", "class A\n    def m(self, p: Int, q: Int := 2) -> Int => p - q", "print(A().m(5), A().m(q=1, p=9))", "3 8"),
@@ -68,9 +70,9 @@ def api_family(rp, only=None):
     return n, bad
 
 
-def fam_replay(rp, prefix, only=None):
+def fam_replay(rp, prefix, only=None, extra_names=()):
     def f(model):
-        n, bad = api_family(rp, only)
+        n, bad = api_family(rp, only, extra_names)
         if bad:
             return {"reproduced": True, "role": f"{prefix}:{bad[0]['role']}", "detail": f"{bad[0]['src']!r}: {bad[0]['why']}",
                     "all_roles": [b["role"] for b in bad]}
@@ -95,7 +97,13 @@ def ob_operator_table(run, mir, rp):
         ex = Exec(mir, max_paths=2000)
         want = {d: k for k, (_s, d, _u) in OPERATORS.items()}
         want.update({d: k for k, d in ALSO.items()})
-        pool = sorted(set(want) | {"__init__", "__str__", "size", "f", "__radd__", "__iadd__"})
+        # every spelling the function compares its argument with (string constants of the path conditions of a run on a symbolic name)
+        st = State()
+        ends_sym = e2.run_kernel(run, ex, fn, [Opq(z3.Const("lit", Val), "&str")], st)
+        keys = {m_ for p in ends_sym for cnd in p.cond for m_ in re.findall(r"str:([^\s,()]+)", str(cnd))}
+        if len(keys) < len(want) // 2:
+            raise Unsupported(f"only {len(keys)} compared spellings found in CoreFunOp::from")
+        pool = sorted(set(want) | keys | {"__init__", "__str__", "size", "f", "__radd__", "__iadd__"})
         got = {}
         for lit in pool:
             st = State()
@@ -133,7 +141,7 @@ def ob_operator_table(run, mir, rp):
         if not found:
             ob.discharged(f"unsat over {len(pool)} names ({len(want)} documented operators)")
         else:
-            rep = fam_replay(rp, "operator-table", only=["operator-"])({})
+            rep = fam_replay(rp, "operator-table", only=["operator-"], extra_names=[k for k in found if k not in want])({})
             if rep["reproduced"]:
                 ob.violated(rep["role"], {"names": found, "from": {k: got[k] for k in found}}, rep, rep["detail"])
             else:
